@@ -31,7 +31,9 @@ Branches found in the code beyond the DESIGN alphabet:
   dispersity-loop slot, which needs max_pd other parameters dispersed (size alternative "fill");
 * the rotation/jitter code is instantiated a second time in the Imagnetic kernel (dimension "kernel":
   an M0 of 1e-300 selects it without changing any SLD, so the same oracle applies);
-* a jitter mesh truncated by the +-360 degree limits, and |cos(dtheta)| beyond 90 degrees.
+* a jitter mesh truncated by the +-360 degree limits, and |cos(dtheta)| beyond 90 degrees;
+* a single-point jitter mesh (npts=1) with a non-zero width: weights.Dispersion.get_weights special-cases
+  npts < 2 and must return {0}, not {view angle}, for the absolute-width (orientation) parameters.
 An EMPTY angle mesh (e.g. rectangle, npts=2, nsigmas=3) is not a mesh of jitter angles and is not
 enumerated.
 """
@@ -70,7 +72,7 @@ BOUNDS = {
               "theta": "base generic; {0, 90, 180, generic negative}", "phi": "base generic; {0, generic negative, 270}",
               "psi": "base generic; {0, 90}",
               "jitter": "per angle: {gaussian, uniform, rectangle, boltzmann} x npts {2,3,5} x width {5, 40} deg "
-                        "+ one mesh truncated by the +-360 limits",
+                        "+ one mesh truncated by the +-360 limits + a single-point mesh (npts=1) with width 10",
               "size": "first / last volume parameter dispersed / as many as there are dispersity loops left", "kernel": "Iqxy; Imagnetic driven with M0=1e-300",
               "q": "17 detector points: 4 orbits under 90-degree rotation (quadrants, half-axes) + near-origin",
               "unoriented": "14 models", "oned": "all 21 oriented models"},
@@ -122,6 +124,10 @@ def alternatives(ctx, dim):
     if dim in ("jtheta", "jphi", "jpsi"):
         out = [[t, n, w] for t in JTYPES for n in JNPTS for w in JWIDTHS]
         out.append(["uniform", 5, 400.0])        # truncated by the +-360 limits to 3 points, |cos| of 200 degrees
+        # a SINGLE-point mesh with a non-zero width (theta_pd=10, theta_pd_n=1; SasView npts=1, width=10): the
+        # documented mesh is {0}, so the result must equal the un-jittered one (weights.py special-cases npts < 2)
+        # (handled in Dispersion.get_weights before the type-specific code, so one distribution type suffices)
+        out.append(["gaussian", 1, 10.0])
         return out
     if dim == "size":
         # "fill": as many volume parameters dispersed as there are dispersity loops left, so that an angle WITHOUT
@@ -212,6 +218,9 @@ def jitter_mesh(spec, limits):
         return np.array([0.0]), np.array([1.0]), 3.0
     t, n, width = spec
     nsig = 1.73205 if t == "rectangle" else 3.0
+    if n < 2:
+        # one point: the centre of the jitter distribution, i.e. no jitter at all, whatever the width
+        return np.array([0.0]), np.array([1.0]), nsig
     if t == "uniform":
         x = np.linspace(-width, width, n)
     else:
@@ -361,7 +370,7 @@ def _run_orient(case, ctx):
             if spec:
                 t, n, width = spec
                 pars.update({ang + "_pd": width, ang + "_pd_n": n, ang + "_pd_type": t, ang + "_pd_nsigma": nsig})
-                br.append("jitter:" + ang)
+                br.append("jitter:" + ang if n > 1 else "jitter-single-point:" + ang)
                 if len(x) < n:
                     br.append("jitter-truncated-by-limits")
                 if np.any(np.abs(x) > 90.0) and ang == "theta":
@@ -599,6 +608,7 @@ def finish(ctx, report):
     report.require("anisotropic", 1000, "evaluations whose 2-D value depends on the azimuth")
     for a in ("theta", "phi", "psi"):
         report.require("jitter:" + a, 500, "jitter mesh in " + a)
+        report.require("jitter-single-point:" + a, 40, "one-point jitter mesh with non-zero width in " + a)
     report.require("jitter-angles:2", 500, "two angles jittered together")
     if not ctx.quick:
         report.require("jitter-angles:3", 500, "three angles jittered together")
